@@ -1,6 +1,7 @@
 //! tvh — the tsrun verification harness. One binary, one subcommand per engine.
 mod common;
 mod run;
+mod iso;
 mod modx;
 mod orders;
 mod reuse;
@@ -27,6 +28,7 @@ fn main() {
         "reuse" => reuse::main(&rest),
         "orders" => orders::main(&rest),
         "modx" => modx::main(&rest),
+        "iso" => iso::main(&rest),
         "c05" => c05::main(&rest),
         "c13" => c13::main(&rest),
         "c15" => c15::main(&rest),
